@@ -170,17 +170,10 @@ where
     const LINE_FEED: u8 = b'\n';
     const CARRIAGE_RETURN: u8 = b'\r';
 
-    fn count_bases(buf: &[u8]) -> usize {
-        if buf.ends_with(&[CARRIAGE_RETURN]) {
-            buf.len() - 1
-        } else {
-            buf.len()
-        }
-    }
-
     let mut bytes_read = 0;
     let mut base_count = 0;
     let mut is_eol = false;
+    let mut ends_with_cr = false;
 
     loop {
         let src = reader.fill_buf()?;
@@ -189,18 +182,28 @@ where
             break;
         }
 
-        let (chunk_len, chunk_base_count) = match memchr(LINE_FEED, src) {
+        let (chunk_len, chunk) = match memchr(LINE_FEED, src) {
             Some(i) => {
                 is_eol = true;
-                (i + 1, count_bases(&src[..i]))
+                (i + 1, &src[..i])
             }
-            None => (src.len(), count_bases(src)),
+            None => (src.len(), src),
         };
 
-        reader.consume(chunk_len);
+        // Only the carriage return that ends the line is not a base, and it may be read in an
+        // earlier buffer than the line feed.
+        if let Some(&b) = chunk.last() {
+            ends_with_cr = b == CARRIAGE_RETURN;
+        }
 
+        base_count += chunk.len();
         bytes_read += chunk_len;
-        base_count += chunk_base_count;
+
+        reader.consume(chunk_len);
+    }
+
+    if ends_with_cr {
+        base_count -= 1;
     }
 
     Ok((bytes_read, base_count))
@@ -337,6 +340,27 @@ mod tests {
         let (len, base_count) = consume_sequence_line(&mut reader)?;
         assert_eq!(len, 6);
         assert_eq!(base_count, 4);
+
+        Ok(())
+    }
+
+    #[test]
+    fn test_consume_sequence_line_with_small_buffers() -> io::Result<()> {
+        use std::io::BufReader;
+
+        fn t(src: &[u8], expected: (usize, usize)) -> io::Result<()> {
+            for capacity in 1..=src.len() {
+                let mut reader = BufReader::with_capacity(capacity, src);
+                assert_eq!(consume_sequence_line(&mut reader)?, expected, "capacity = {capacity}");
+            }
+
+            Ok(())
+        }
+
+        t(b"ACGT\r\nAC", (6, 4))?;
+        t(b"AC\rGT\n", (6, 5))?;
+        t(b"AC\r\r\n", (5, 3))?;
+        t(b"ACGT\r", (5, 4))?;
 
         Ok(())
     }
